@@ -41,12 +41,21 @@ def attribute(own, chain):
         visited.append(lvl)
     if override is not None:
         exp = _items(override)
-        if not visited and exp:
+        has_info = bool(exp)
+        # an `aggregate` table of an outer REUSE.toml still adds its information (the override hides DEEPER files and
+        # the file's own content, REUSE.toml stays the only kind of source)
+        others = []
+        for lvl in visited:
+            if lvl["prec"] == AGGREGATE:
+                exp |= _items(lvl)
+            else:
+                others.append(lvl)
+        if not others and has_info:
             return exp, True, exp
-        # closest/aggregate tables above an override, or an override without
+        # closest tables above an override, or an override without
         # information: not determined by the statement
         allowed = set(exp)
-        for lvl in visited:
+        for lvl in others:
             allowed |= _items(lvl)
         return exp, False, allowed
     exp = set()
@@ -90,6 +99,9 @@ def _selftest():
     assert e == {("cop", "C1", "d/REUSE.toml", "reuse-toml"), ("lic", "L0", "REUSE.toml", "reuse-toml")}
     e, s, _ = attribute(own, [T(CLOSEST, ["C0"], [], "REUSE.toml"), T(OVERRIDE, [], ["L1"], "d/REUSE.toml")])
     assert not s
+    # an outer aggregate table adds to a deeper override
+    e, s, _ = attribute(own, [T(AGGREGATE, ["C0"], [], "REUSE.toml"), T(OVERRIDE, ["C1"], ["L1"], "d/REUSE.toml")])
+    assert s and e == {("cop", "C0", "REUSE.toml", "reuse-toml"), ("cop", "C1", "d/REUSE.toml", "reuse-toml"), ("lic", "L1", "d/REUSE.toml", "reuse-toml")}
 
 
 _selftest()
